@@ -564,7 +564,8 @@ Section Recv.
       destruct (hs_ok hs_room body); cbn [fst snd marks]; [exact Hm|apply wt_refl]. }
     destruct (decode_content t body) as [p | level desc | | | ].
     - destruct (e =? 0); cbn [fst snd marks]; [apply wt_refl|exact Hm].
-    - destruct ((level =? 2) || (desc =? 0)); destruct (desc =? 0); cbn [fst snd marks app];
+    - destruct (r_estab s && (e =? 0)); [apply wt_refl|].
+      destruct ((level =? 2) || (desc =? 0)); destruct (desc =? 0); cbn [fst snd marks app];
         try exact Hm; (apply (wt_mark_then W s prot e q); auto; apply wt_closed).
     - destruct (e =? 0); cbn [fst snd marks]; [apply wt_refl|exact Hm].
     - destruct ((e =? 0) || negb (r_rrc s)); cbn [fst snd marks]; [apply wt_refl|exact Hm].
@@ -810,7 +811,7 @@ Section Recv.
       destruct (e =? 0); reflexivity.
     - assert (t =? 23 = false).
       { unfold decode_content in Ed. destruct (t =? 21) eqn:E1; [lia|]. destruct (t =? 23); [discriminate|reflexivity]. }
-      rewrite H. cbn [andb].
+      rewrite H. cbn [andb]. destruct (r_estab s && (e =? 0)); [reflexivity|].
       destruct ((level =? 2) || (desc =? 0)); destruct (desc =? 0); reflexivity.
     - assert (t =? 23 = false).
       { unfold decode_content in Ed. destruct (t =? 21) eqn:E1; [lia|]. destruct (t =? 23); [discriminate|reflexivity]. }
@@ -831,7 +832,8 @@ Section Recv.
       destruct (hs_ok hs_room body); cbn; [intros [H | []]; now inversion H | intros []]. }
     destruct (decode_content t body) as [p | level desc | | | ].
     - destruct (e =? 0); cbn; [intros [] | intros [H | []]; now inversion H].
-    - destruct ((level =? 2) || (desc =? 0)); destruct (desc =? 0); cbn; intros [H | []]; now inversion H.
+    - destruct (r_estab s && (e =? 0)); [intros []|].
+      destruct ((level =? 2) || (desc =? 0)); destruct (desc =? 0); cbn; intros [H | []]; now inversion H.
     - destruct (e =? 0); cbn; [intros [] | intros [H | []]; now inversion H].
     - destruct ((e =? 0) || negb (r_rrc s)); cbn; [intros [] | intros [H | []]; now inversion H].
     - destruct (e =? 0); cbn; intros [].
@@ -1114,7 +1116,8 @@ Section Recv.
         destruct (hs_ok hs_room body); cbn [fst]; [apply Hmark|reflexivity].
       - destruct (decode_content t body) as [p | level desc | | | ].
         + destruct (e =? 0); cbn [fst]; [reflexivity|apply Hmark].
-        + destruct ((level =? 2) || (desc =? 0)); cbn [fst with_closed r_queue]; apply Hmark.
+        + destruct (r_estab s0 && (e =? 0)); [reflexivity|].
+          destruct ((level =? 2) || (desc =? 0)); cbn [fst with_closed r_queue]; apply Hmark.
         + destruct (e =? 0); cbn [fst]; [reflexivity|apply Hmark].
         + destruct ((e =? 0) || negb (r_rrc s0)); cbn [fst]; [reflexivity|apply Hmark].
         + destruct (e =? 0); reflexivity. }
@@ -1208,7 +1211,8 @@ Section Recv.
       destruct (hs_ok hs_room body); cbn [fst]; [apply keys_same_mark|apply keys_same_refl].
     - destruct (decode_content t body) as [p | level desc | | | ].
       + destruct (e =? 0); cbn [fst]; [apply keys_same_refl|apply keys_same_mark].
-      + destruct ((level =? 2) || (desc =? 0)); cbn [fst]; [|apply keys_same_mark].
+      + destruct (r_estab s && (e =? 0)); [apply keys_same_refl|].
+        destruct ((level =? 2) || (desc =? 0)); cbn [fst]; [|apply keys_same_mark].
         eapply keys_same_trans; [apply keys_same_mark|]. unfold keys_same; cbn; auto 10.
       + destruct (e =? 0); cbn [fst]; [apply keys_same_refl|apply keys_same_mark].
       + destruct ((e =? 0) || negb (r_rrc s)); cbn [fst]; [apply keys_same_refl|apply keys_same_mark].
@@ -1306,7 +1310,8 @@ Section Recv.
       destruct (hs_ok hs_room body); cbn; [intros [H | [H | []]]; discriminate | intros []]. }
     destruct (decode_content t body) as [p | level desc | | | ].
     - destruct (e =? 0); cbn; [intros [H | [H | []]]; discriminate | intros [H | [H | []]]; discriminate].
-    - destruct ((level =? 2) || (desc =? 0)); destruct (desc =? 0); cbn;
+    - destruct (r_estab s && (e =? 0)); [intros []|].
+      destruct ((level =? 2) || (desc =? 0)); destruct (desc =? 0); cbn;
         intros H; repeat (destruct H as [H | H]; [discriminate|]); destruct H.
     - destruct (e =? 0) eqn:E0; cbn; [intros []|].
       intros [H | [H | []]]; [discriminate|]. inversion H; subst. repeat split; auto. lia.
@@ -1326,7 +1331,8 @@ Section Recv.
       intros Hes. rewrite Hes in Ee. cbn in Ee. lia. }
     destruct (decode_content t body) as [p | level desc | | | ].
     - destruct (e =? 0); cbn; intros H; repeat (destruct H as [H | H]; [discriminate|]); destruct H.
-    - destruct ((level =? 2) || (desc =? 0)); destruct (desc =? 0); cbn;
+    - destruct (r_estab s && (e =? 0)); [intros []|].
+      destruct ((level =? 2) || (desc =? 0)); destruct (desc =? 0); cbn;
         intros H; repeat (destruct H as [H | H]; [discriminate|]); destruct H.
     - destruct (e =? 0); cbn; intros H; repeat (destruct H as [H | H]; [discriminate|]); destruct H.
     - destruct ((e =? 0) || negb (r_rrc s)); cbn; intros H; repeat (destruct H as [H | H]; [discriminate|]); destruct H.
@@ -1381,7 +1387,9 @@ Section Recv.
         destruct (hs_ok hs_room body'); cbn in H0; repeat (destruct H0 as [H0 | H0]; [discriminate|]); destruct H0. }
       unfold decode_content in H0.
       destruct (t =? 21) eqn:E21.
-      { destruct body' as [|l [|d [|x y]]]; cbn in H0; try (destruct (e' =? 0); cbn in H0);
+      { destruct body' as [|l [|d [|x y]]]; cbn in H0;
+          try (destruct (r_estab _ && (e' =? 0)); [destruct H0|]);
+          try (destruct (e' =? 0); cbn in H0);
           try (destruct ((l =? 2) || (d =? 0)); destruct (d =? 0); cbn in H0);
           repeat (destruct H0 as [H0 | H0]; [discriminate|]); try destruct H0. }
       destruct (t =? 23) eqn:E23.
@@ -1399,6 +1407,248 @@ Section Recv.
       destruct (_ =? 0) eqn:E0.
       + intro H. apply dispatch_acks in H. destruct H as (-> & _ & _ & He). lia.
       + destruct (negb (has_prot _)); intros [].
+  Qed.
+
+  (* ---------------------------------------------------------------- established: unprotected records are inert *)
+
+  Definition typed13 (b : bytes) : bool := is_ct13 (hd 0 b) || is_plain13 (hd 0 b).
+
+  Lemma dispatch_plain_established W prot s q t body :
+    r_estab s = true -> is_plain13 t = true -> dispatch W prot s 0 q t body = (s, []).
+  Proof.
+    intros Hes Ht. unfold Rec13.dispatch. rewrite Hes. cbn [N.eqb andb].
+    destruct (t =? 22) eqn:E22; [reflexivity|].
+    unfold is_plain13 in Ht. rewrite E22 in Ht. unfold decode_content.
+    destruct (t =? 21) eqn:E21.
+    { destruct body as [|l [|d [|x y]]]; reflexivity. }
+    cbn [orb] in Ht. assert (t = 26) by lia. subst t. cbn [N.eqb Pos.eqb].
+    destruct (ack_ok body); reflexivity.
+  Qed.
+
+  (* C05 for unprotected records: once the handshake is complete a legacy-header record (alert,
+     handshake or ACK typed - nothing else gets past UnpackDatagram13) has no output, commits no
+     replay slot and changes no highest number, key, epoch or closed flag; all it can do is make the
+     code allocate (empty) replay detectors and, when it claims the next epoch, take a slot of the
+     bounded queue *)
+  Theorem legacy_inert_established W lease s b :
+    r_estab s = true -> is_plain13 (hd 0 b) = true ->
+    snd (recv_legacy W lease s b) = [] /\
+    keys_same s (fst (recv_legacy W lease s b)) /\
+    r_high (fst (recv_legacy W lease s b)) = r_high s /\
+    r_closed (fst (recv_legacy W lease s b)) = r_closed s /\
+    (forall e, snd (get_win W e (r_wins (fst (recv_legacy W lease s b)))) = snd (get_win W e (r_wins s))) /\
+    (r_queue (fst (recv_legacy W lease s b)) = r_queue s \/ r_queue (fst (recv_legacy W lease s b)) = r_queue s ++ [b]).
+  Proof.
+    intros Hes Ht.
+    assert (Hsame : forall s0 : rstate, snd (s0, @nil out) = [] /\ keys_same s0 s0 /\ r_high s0 = r_high s0 /\
+              r_closed s0 = r_closed s0 /\ (forall e, snd (get_win W e (r_wins s0)) = snd (get_win W e (r_wins s0))) /\
+              (r_queue s0 = r_queue s0 \/ r_queue s0 = r_queue s0 ++ [b])).
+    { intro s0. split; [reflexivity|]. split; [apply keys_same_refl|]. auto 10. }
+    assert (Henq : forall s0, keys_same s s0 -> r_high s0 = r_high s -> r_closed s0 = r_closed s ->
+              (forall e, snd (get_win W e (r_wins s0)) = snd (get_win W e (r_wins s))) -> r_queue s0 = r_queue s ->
+              snd (enqueue lease s0 b, @nil out) = [] /\ keys_same s (enqueue lease s0 b) /\
+              r_high (enqueue lease s0 b) = r_high s /\ r_closed (enqueue lease s0 b) = r_closed s /\
+              (forall e, snd (get_win W e (r_wins (enqueue lease s0 b))) = snd (get_win W e (r_wins s))) /\
+              (r_queue (enqueue lease s0 b) = r_queue s \/ r_queue (enqueue lease s0 b) = r_queue s ++ [b])).
+    { intros s0 Hk Hh Hc Hw Hq.
+      destruct (enqueue_spec lease s0 b) as [(E1 & E2 & E3 & E4 & E5 & E6 & E7 & E8 & E9 & E10) Hqq].
+      split; [reflexivity|]. split; [eapply keys_same_trans; [exact Hk|apply keys_same_enqueue]|].
+      split; [congruence|]. split; [congruence|]. split; [intro e; rewrite E4; apply Hw|].
+      destruct Hqq as [-> | (-> & _)]; rewrite Hq; auto. }
+    unfold Rec13.recv_legacy.
+    destruct (length b <? 13)%nat; [apply Hsame|].
+    destruct (negb (legacy_version_ok b)); [apply Hsame|].
+    set (e := be_dec (firstn 2 (skipn 3 b))). set (q := be_dec (firstn 6 (skipn 5 b))).
+    destruct (r_epoch s <? e).
+    { cbn [fst snd]. destruct (max_future (r_epoch s) <? e); [apply Hsame|].
+      apply Henq; auto. apply keys_same_refl. }
+    set (s1 := with_wins s (ensure_wins W maxseq48 e (r_wins s))).
+    assert (H1 : snd (s1, @nil out) = [] /\ keys_same s s1 /\ r_high s1 = r_high s /\ r_closed s1 = r_closed s /\
+                 (forall e0, snd (get_win W e0 (r_wins s1)) = snd (get_win W e0 (r_wins s))) /\
+                 (r_queue s1 = r_queue s \/ r_queue s1 = r_queue s ++ [b])).
+    { split; [reflexivity|]. split; [apply keys_same_wins|]. split; [reflexivity|]. split; [reflexivity|].
+      split; [intro e0; cbn [s1 r_wins with_wins]; apply get_win_ensure|now left]. }
+    destruct (get_win W e (r_wins s1)) as [mx w].
+    destruct (negb (check mx w q)); [exact H1|].
+    destruct (e =? 0) eqn:E0.
+    - assert (e = 0) by lia. rewrite H. rewrite dispatch_plain_established; [exact H1|exact Hes|exact Ht].
+    - destruct (negb (has_prot s1)); [|exact H1].
+      destruct H1 as (_ & K & Hh & Hc & Hw & _). apply Henq; auto.
+  Qed.
+
+  Lemma uh_unmarshal_shorter n b h rest : uh_unmarshal n b = Some (h, rest) -> (length rest < length b)%nat.
+  Proof.
+    clear snmask aopen hs_room. unfold uh_unmarshal. destruct b as [|ct r0]; [discriminate|].
+    destruct (negb (is_ct13 ct)); [discriminate|].
+    destruct (length r0 <? _)%nat; [discriminate|].
+    destruct (length (skipn _ r0) <? _)%nat; [discriminate|].
+    destruct (length (skipn _ (skipn _ r0)) <? _)%nat; [discriminate|].
+    intro H. inversion H; subst. rewrite !skipn_length. cbn [length]. lia.
+  Qed.
+
+  Lemma hd_firstn (n : nat) (b : bytes) : (0 < n)%nat -> hd 0 (firstn n b) = hd 0 b.
+  Proof. clear snmask aopen hs_room. destruct n; [lia|]. destruct b; reflexivity. Qed.
+
+  (* every record UnpackDatagram13 hands on is a ciphertext record or an alert / handshake / ACK
+     typed legacy record *)
+  Lemma unpack13_typed : forall fuel cidlen req first b rs,
+    unpack13 cidlen req first fuel b = Some rs -> Forall (fun r => typed13 r = true) rs.
+  Proof.
+    clear snmask aopen hs_room.
+    induction fuel as [|fuel IH]; intros cidlen req first b rs H.
+    - destruct b; cbn in H; [inversion H; constructor|discriminate].
+    - destruct b as [|ct b']; [cbn in H; inversion H; constructor|].
+      cbn [unpack13] in H. destruct (is_plain13 ct) eqn:Ep.
+      + destruct (length (ct :: b') <=? 13)%nat; [discriminate|].
+        set (n := (13 + N.to_nat (be_dec (firstn 2 (skipn 11 (ct :: b')))))%nat) in *.
+        destruct (length (ct :: b') <? n)%nat; [discriminate|].
+        destruct (unpack13 cidlen req first fuel (skipn n (ct :: b'))) as [rs'|] eqn:Er; [|discriminate].
+        injection H as <-. constructor; [|eapply IH; eauto].
+        unfold typed13. try rewrite hd_firstn by (unfold n; lia). cbn [hd]. rewrite Ep. apply orb_true_r.
+      + destruct (negb (is_ct13 ct)) eqn:Ec; [discriminate|]. apply negb_false_iff in Ec.
+        destruct (_ || _); [discriminate|].
+        destruct (uh_unmarshal _ (ct :: b')) as [[h rest]|] eqn:Eu; [|discriminate].
+        pose proof (uh_unmarshal_shorter _ _ _ _ Eu) as Hsh.
+        destruct (if (cidlen =? 0)%nat then _ else _) as [mismatch first'].
+        destruct (negb (u_lbit h)).
+        * destruct (negb (ct_len_ok (len rest))); [discriminate|].
+          destruct mismatch; inversion H; subst; [constructor|].
+          constructor; [|constructor]. unfold typed13. cbn [hd]. now rewrite Ec.
+        * destruct (negb (ct_len_ok (u_len h))); [discriminate|].
+          destruct (len rest <? u_len h); [discriminate|].
+          destruct mismatch; [inversion H; constructor|].
+          set (n := (length (ct :: b') - length rest + N.to_nat (u_len h))%nat) in *.
+          destruct (unpack13 cidlen req first' fuel (skipn n (ct :: b'))) as [rs'|] eqn:Er; [|discriminate].
+          injection H as <-. constructor; [|eapply IH; eauto].
+          unfold typed13. try rewrite hd_firstn by (unfold n; lia). cbn [hd]. now rewrite Ec.
+  Qed.
+
+  Lemma recv_record_queue_shape W lease s b :
+    r_queue (fst (recv_record W lease s b)) = r_queue s \/
+    r_queue (fst (recv_record W lease s b)) = r_queue s ++ [b].
+  Proof.
+    assert (Henq : forall s0, r_queue s0 = r_queue s ->
+              r_queue (enqueue lease s0 b) = r_queue s \/ r_queue (enqueue lease s0 b) = r_queue s ++ [b]).
+    { intros s0 Hq. destruct (enqueue_spec lease s0 b) as [_ [-> | (-> & _)]]; rewrite Hq; auto. }
+    assert (Hmark : forall prot s0 e q, r_queue (mark W prot s0 e q) = r_queue s0).
+    { intros prot s0 e q. unfold mark. destruct (get_win W e (r_wins s0)) as [mx w].
+      destruct (accept mx w q) as [w' isl]. destruct (prot && isl); reflexivity. }
+    assert (Hdisp : forall prot s0 e q t body, r_queue (fst (dispatch W prot s0 e q t body)) = r_queue s0).
+    { intros prot s0 e q t body. unfold Rec13.dispatch. destruct (t =? 22).
+      - destruct (r_estab s0 && (e =? 0)); [reflexivity|].
+        destruct (hs_ok hs_room body); cbn [fst]; [apply Hmark|reflexivity].
+      - destruct (decode_content t body) as [p | level desc | | | ].
+        + destruct (e =? 0); cbn [fst]; [reflexivity|apply Hmark].
+        + destruct (r_estab s0 && (e =? 0)); [reflexivity|].
+          destruct ((level =? 2) || (desc =? 0)); cbn [fst with_closed r_queue]; apply Hmark.
+        + destruct (e =? 0); cbn [fst]; [reflexivity|apply Hmark].
+        + destruct ((e =? 0) || negb (r_rrc s0)); cbn [fst]; [reflexivity|apply Hmark].
+        + destruct (e =? 0); reflexivity. }
+    unfold Rec13.recv_record. destruct b as [|c b']; [now left|].
+    destruct (is_ct13 c).
+    - unfold Rec13.recv_cipher. destruct (parse_crec s (c :: b')) as [[h ct]|]; [|now left].
+      destruct (negb (has_prot s)); [now apply Henq|].
+      destruct (open_record s h ct) as [body t q e | | ].
+      + destruct (get_win W e _) as [mx w]. destruct (negb (check mx w q)); [now left|].
+        destruct (maxseq48 <? q); [now left|]. rewrite Hdisp. now left.
+      + cbn [fst]. destruct (queueable_epoch _ _); [now apply Henq|now left].
+      + now left.
+    - unfold Rec13.recv_legacy. destruct (length (c :: b') <? 13)%nat; [now left|].
+      destruct (negb (legacy_version_ok (c :: b'))); [now left|].
+      destruct (r_epoch s <? _).
+      { cbn [fst]. destruct (max_future (r_epoch s) <? _); [now left|now apply Henq]. }
+      destruct (get_win W _ _) as [mx w]. destruct (negb (check mx w _)); [now left|].
+      destruct (_ =? 0); [rewrite Hdisp; now left|].
+      destruct (negb (has_prot _)); [|now left]. cbn [fst]. now apply Henq.
+  Qed.
+
+  (* the parked queue only ever holds records UnpackDatagram13 let through *)
+  Definition QI (s : rstate) : Prop := Forall (fun r => typed13 r = true) (r_queue s).
+
+  Lemma recv_list_est W lease o : forall rs s,
+    r_estab s = true -> Forall (fun r => typed13 r = true) rs ->
+    In o (snd (recv_list W lease s rs)) ->
+    exists s' b, r_estab s' = true /\ In o (snd (recv_cipher W lease s' b)).
+  Proof.
+    induction rs as [|r rs IH]; intros s Hes HF H; [destruct H|].
+    inversion HF as [|? ? Hr HF']; subst.
+    cbn [Rec13.recv_list] in H.
+    pose proof (recv_record_keys W lease s r) as Hk.
+    assert (Hcase : (exists b, snd (recv_record W lease s r) = snd (recv_cipher W lease s b)) \/ snd (recv_record W lease s r) = []).
+    { unfold Rec13.recv_record. destruct r as [|c r']; [now right|]. unfold typed13 in Hr. cbn [hd] in Hr.
+      destruct (is_ct13 c) eqn:Ec; [left; now exists (c :: r')|]. cbn [orb] in Hr.
+      right. now destruct (legacy_inert_established W lease s (c :: r') Hes Hr). }
+    destruct (recv_record W lease s r) as [s1 o1]. cbn [fst snd] in *.
+    assert (Hes1 : r_estab s1 = true) by (destruct Hk as (_ & _ & _ & _ & _ & _ & He); congruence).
+    assert (Ho1 : In o o1 -> exists s' b, r_estab s' = true /\ In o (snd (recv_cipher W lease s' b))).
+    { intro Hin. destruct Hcase as [[b Hb] | Hb]; rewrite Hb in Hin; [now exists s, b|destruct Hin]. }
+    destruct (existsb is_err o1); [now apply Ho1|].
+    destruct (recv_list W lease s1 rs) as [s2 o2] eqn:E2. cbn [snd] in H. apply in_app_iff in H.
+    destruct H as [H | H]; [now apply Ho1|]. apply (IH s1 Hes1 HF'). now rewrite E2.
+  Qed.
+
+  Lemma recv_list_inv W lease : forall rs s,
+    r_estab s = true -> QI s -> Forall (fun r => typed13 r = true) rs ->
+    r_estab (fst (recv_list W lease s rs)) = true /\ QI (fst (recv_list W lease s rs)).
+  Proof.
+    induction rs as [|r rs IH]; intros s Hes HQ HF; [split; assumption|].
+    inversion HF as [|? ? Hr HF']; subst. cbn [Rec13.recv_list].
+    pose proof (recv_record_keys W lease s r) as Hk. pose proof (recv_record_queue_shape W lease s r) as Hq.
+    destruct (recv_record W lease s r) as [s1 o1]. cbn [fst] in *.
+    assert (Hes1 : r_estab s1 = true) by (destruct Hk as (_ & _ & _ & _ & _ & _ & He); congruence).
+    assert (HQ1 : QI s1).
+    { unfold QI. destruct Hq as [-> | ->]; [exact HQ|]. apply Forall_app. split; [exact HQ|]. constructor; [exact Hr|constructor]. }
+    destruct (existsb is_err o1); [split; assumption|].
+    specialize (IH s1 Hes1 HQ1 HF'). destruct (recv_list W lease s1 rs) as [s2 o2]. exact IH.
+  Qed.
+
+  (* C05, established connection, epoch 0 included: over every later history every visible output
+     (delivery, alert acted on or written, handshake / ACK record handed on, close, error) comes out of
+     the ciphertext path, hence - by effect_only_authentic - from a record that authenticated *)
+  Theorem established_outputs_from_ciphertext W o : forall ops s,
+    r_estab s = true -> QI s -> In o (snd (run_ops W s ops)) ->
+    exists lease s' b, r_estab s' = true /\ In o (snd (recv_cipher W lease s' b)).
+  Proof.
+    induction ops as [|op ops IH]; intros s Hes HQ H; [destruct H|].
+    cbn [Rec13.run_ops] in H.
+    assert (Hstep : (In o (snd (step W s op)) -> exists lease s' b, r_estab s' = true /\ In o (snd (recv_cipher W lease s' b))) /\
+                    r_estab (fst (step W s op)) = true /\ QI (fst (step W s op))).
+    { destruct op as [d | e | e | | cid neg rrc | ]; cbn [Rec13.step fst snd];
+        try (split; [intros []|split; [first [exact Hes | reflexivity]|exact HQ]]).
+      - unfold Rec13.recv13. destruct (r_closed s); [cbn [fst snd]; split; [intros []|split; assumption]|].
+        unfold unpack_datagram13. destruct (unpack13 _ _ None (length d) d) as [rs|] eqn:Eu; [|cbn [fst snd]; split; [intros []|split; assumption]].
+        pose proof (unpack13_typed _ _ _ _ _ _ Eu) as HF.
+        split; [intro Hin; exists true; now apply (recv_list_est W true o rs s)|now apply recv_list_inv].
+      - destruct (r_closed s); [cbn [fst snd]; split; [intros []|split; assumption]|].
+        split; [intro Hin; exists false; apply (recv_list_est W false o (r_queue s) (with_queue s [])); auto|].
+        apply recv_list_inv; auto. constructor. }
+    destruct (step W s op) as [s1 o1]. cbn [fst snd] in Hstep. destruct Hstep as (Ho & Hes1 & HQ1).
+    destruct (run_ops W s1 ops) as [s2 o2] eqn:E2. cbn [snd] in H. apply in_app_iff in H.
+    destruct H as [H | H]; [now apply Ho|]. apply (IH s1 Hes1 HQ1). now rewrite E2.
+  Qed.
+
+  (* the queue invariant holds in every state reachable from the initial one, and "established" is never undone *)
+  Theorem queue_typed_reachable W : forall ops s, QI s -> QI (fst (run_ops W s ops)).
+  Proof.
+    assert (Hl : forall lease rs s, QI s -> Forall (fun r => typed13 r = true) rs -> QI (fst (recv_list W lease s rs))).
+    { intros lease. induction rs as [|r rs IH]; intros s HQ HF; [exact HQ|].
+      inversion HF as [|? ? Hr HF']; subst. cbn [Rec13.recv_list].
+      pose proof (recv_record_queue_shape W lease s r) as Hq.
+      destruct (recv_record W lease s r) as [s1 o1]. cbn [fst] in *.
+      assert (HQ1 : QI s1).
+      { unfold QI. destruct Hq as [-> | ->]; [exact HQ|]. apply Forall_app. split; [exact HQ|]. constructor; [exact Hr|constructor]. }
+      destruct (existsb is_err o1); [exact HQ1|].
+      specialize (IH s1 HQ1 HF'). destruct (recv_list W lease s1 rs) as [s2 o2]. exact IH. }
+    induction ops as [|op ops IH]; intros s HQ; [exact HQ|].
+    cbn [Rec13.run_ops].
+    assert (H1 : QI (fst (step W s op))).
+    { destruct op as [d | e | e | | cid neg rrc | ]; cbn [Rec13.step fst]; try exact HQ.
+      - unfold Rec13.recv13. destruct (r_closed s); [exact HQ|].
+        unfold unpack_datagram13. destruct (unpack13 _ _ None (length d) d) as [rs|] eqn:Eu; [|exact HQ].
+        apply Hl; [exact HQ|]. eapply unpack13_typed; eauto.
+      - destruct (r_closed s); [exact HQ|]. apply Hl; [constructor|exact HQ]. }
+    destruct (step W s op) as [s1 o1]. cbn [fst] in H1.
+    specialize (IH s1 H1). destruct (run_ops W s1 ops) as [s2 o2]. exact IH.
   Qed.
 End Recv.
 
@@ -1534,6 +1784,24 @@ Section Ideal.
     exfalso. destruct (authentic_is_emitted s b body t q e Hok Ea) as (a & c & i & Hin & Hw).
     exact (Hno _ Hin Hw).
   Qed.
+
+  (* C05 for an established connection, epoch 0 included: every visible output over every later
+     history traces back to a tuple the peer sealed, and so does every committed replay slot *)
+  Theorem established_effects_sealed W ops s o :
+    r_estab s = true -> QI s -> In o (snd (run_ops snmask aopen hs_room W s ops)) ->
+    match o with
+    | OMark e q => exists a c i, In (e, q, a, c, i) log
+    | _ => exists e q a c i, In (e, q, a, c, i) log
+    end.
+  Proof.
+    intros Hes HQ H. apply established_outputs_from_ciphertext in H; auto.
+    destruct H as (lease & s' & b & _ & H).
+    assert (Hany : exists e q a c i, In (e, q, a, c, i) log).
+    { apply (effect_only_sealed W lease s' b). intro Hn. rewrite Hn in H. destruct H. }
+    destruct o; try exact Hany.
+    apply in_marks in H. apply recv_cipher_marks in H. destruct H as (body & t & H).
+    apply (auth_cipher_spec snmask aopen) in H. destruct H as (h & ct & inner & _ & _ & _ & _ & _ & Hopen & _). eauto.
+  Qed.
 End Ideal.
 
 (* ------------------------------------------------------------------ what unprotected records still do; limits of the tolerance *)
@@ -1550,25 +1818,21 @@ Definition plain_keyupdate : bytes :=
 Definition plain_ack : bytes :=
   [26; 254; 253; 0; 0; 0; 0; 0; 0; 17; 31; 0; 18; 0; 16; 0; 0; 0; 0; 0; 0; 0; 3; 0; 0; 0; 0; 0; 0; 0; 0].
 
-Theorem unprotected_alert_closes :
+(* once the handshake is complete the 15-byte unprotected fatal alert has no effect (regression of the
+   repaired defect: it used to close the connection) *)
+Theorem unprotected_alert_inert_example :
   has_prot est_state = true /\ r_closed est_state = false /\
   forall snmask aopen hs_room,
-    snd (recv13 snmask aopen hs_room 64 est_state plain_alert) = [OMark 0 4138; OAlertIn 0 4138 2 80; OClosed] /\
-    r_closed (fst (recv13 snmask aopen hs_room 64 est_state plain_alert)) = true.
-Proof. split; [reflexivity|]. split; [reflexivity|]. intros. split; vm_compute; reflexivity. Qed.
+    snd (recv13 snmask aopen hs_room 64 est_state plain_alert) = [] /\
+    r_closed (fst (recv13 snmask aopen hs_room 64 est_state plain_alert)) = false /\
+    latest (snd (get_win 64 0 (r_wins (fst (recv13 snmask aopen hs_room 64 est_state plain_alert))))) = 0.
+Proof. split; [reflexivity|]. split; [reflexivity|]. intros. split; [|split]; vm_compute; reflexivity. Qed.
 
-(* the ideal statement "once keys exist the endpoint acts only on records the peer sealed" is FALSE of
-   the code: with an AEAD that opens nothing at all (the peer sealed nothing) a 15-byte datagram
-   closes the connection *)
-Theorem acts_only_on_sealed_refuted :
-  ~ (forall snmask aopen hs_room W s d,
-        (forall e q a c, aopen e q a c = None) -> has_prot s = true -> r_closed s = false ->
-        r_closed (fst (recv13 snmask aopen hs_room W s d)) = false).
-Proof.
-  intro H. specialize (H (fun _ _ => 0) (fun _ _ _ _ => None) (fun _ => true) 64%nat est_state plain_alert
-                         (fun _ _ _ _ => eq_refl) eq_refl eq_refl).
-  vm_compute in H. discriminate H.
-Qed.
+(* ... while the handshake is still running an unprotected fatal alert aborts it, as before *)
+Theorem unprotected_alert_during_handshake :
+  forall snmask aopen hs_room,
+    snd (recv13 snmask aopen hs_room 64 (rinit [] false false) plain_alert) = [OMark 0 4138; OAlertIn 0 4138 2 80; OClosed].
+Proof. intros. vm_compute. reflexivity. Qed.
 
 (* once the handshake is complete an unprotected handshake record (here a KeyUpdate carrying
    message_seq 7) is dropped before reassembly: no commit, nothing reaches the post-handshake state
